@@ -734,6 +734,19 @@ impl<F: Read + Write + Seek> Package<F> {
         if let Some(ref validation_columns) = validation_columns {
             check_catalog_rows(validation_columns, &validation_rows)?;
         }
+        self.string_pool.check_capacity(
+            columns_rows
+                .iter()
+                .chain(tables_rows.iter())
+                .chain(
+                    validation_rows
+                        .iter()
+                        .filter(|_| validation_columns.is_some()),
+                )
+                .flat_map(|values| values.iter())
+                .filter_map(Value::string_to_intern)
+                .map(|string| (None, Some(string))),
+        )?;
         self.insert_rows(Insert::into(COLUMNS_TABLE_NAME).rows(columns_rows))?;
         self.insert_rows(Insert::into(TABLES_TABLE_NAME).rows(tables_rows))?;
         let long_string_refs = self.string_pool.long_string_refs();
